@@ -8,7 +8,7 @@
     the code after the fix commit "coinswap routed swaps return the intermediate standard coin
     to the sender" (before it, leg 1 of a routed swap paid the recipient: corpus/C02). *)
 From Irismod Require Import Coinswap.Model Coinswap.Check Coinswap.ProofsArith Coinswap.ProofsSpec
-  Coinswap.Proofs Coinswap.ProofsValue Coinswap.ProofsSound Coinswap.ProofsLpt Coinswap.ProofsConserve.
+  Coinswap.Proofs Coinswap.ProofsValue Coinswap.ProofsSound Coinswap.ProofsLpt Coinswap.ProofsConserve Coinswap.ProofsEncode Coinswap.LinkParams.
 
 Local Open Scope Z_scope.
 
@@ -182,11 +182,12 @@ Theorem supply_frame :
 Proof. exact supply_frame_lemma. Qed.
 Print Assumptions supply_frame.
 
-(** over any history: a denom that is neither the creation-fee denom nor the LPT denom of a pool
-    registered at the end has the supply it started with *)
+(** over any history (parameter changes included): a denom that is never the creation-fee denom
+    ([all_states]: at no state the history passes through) and not the LPT denom of a pool registered
+    at the end has the supply it started with *)
 Theorem history_supply_frame :
   forall (ms : list msg) (s : state) (d : Z),
-    d <> p_cdenom (par s) ->
+    all_states (fun s' => d <> p_cdenom (par s')) s ms ->
     (forall cp n, In (cp, n) (pools (run s ms)) -> d <> lpt n) ->
     supply (run s ms) d = supply s d.
 Proof. exact history_supply_frame_lemma. Qed.
@@ -208,6 +209,40 @@ Theorem history_balance_sheet :
 Proof. exact history_conserves_lemma. Qed.
 Print Assumptions history_balance_sheet.
 
+(** ** parameters (link to the C16 model of group params, [Params/Model.v])
+
+    what a successful [MsgUpdateParams] stores is accepted by the C16 model's [validate_cs] (read with
+    every field present and a valid creation-fee denom class [dc]) and keeps the fee ranges [Inv]
+    needs; together with [transfer]-free [exec_update_params] this is why every history theorem of C01 /
+    C02 holds across parameter changes *)
+Theorem stored_params_are_validated :
+  forall (s : state) (auth : Z) (p : params) (s' : state) (r : list Z) (dc : Z),
+    Params.Model.denom_valid dc = true ->
+    exec_update_params s auth p = Ret (s', r) ->
+    Params.Model.validate_cs (to_cs (par s') dc) = Ok
+    /\ 0 <= p_fee (par s') < P18 /\ 0 <= p_ufee (par s') <= P18.
+Proof. exact update_params_validated. Qed.
+Print Assumptions stored_params_are_validated.
+
+(** conversely: a parameter set the C16 validator accepts (valid denom index, creation fee within the
+    255 bits of the fix "coinswap Params.Validate rejects a pool creation fee amount of more than
+    255 bits") is one [MsgUpdateParams] accepts *)
+Theorem validated_params_are_accepted :
+  forall (p : params) (dc : Z),
+    0 <= p_cdenom p -> p_camt p < 2 ^ 255 ->
+    Params.Model.validate_cs (to_cs p dc) = Ok -> params_valid p = true.
+Proof. exact validate_cs_params_valid. Qed.
+Print Assumptions validated_params_are_accepted.
+
+(** a parameter change is made only by the authority, only with valid values, and moves no coin *)
+Theorem update_params_settlement :
+  forall (s : state) (auth : Z) (p : params) (s' : state) (r : list Z),
+    exec_update_params s auth p = Ret (s', r) ->
+    r = [] /\ auth = acct_gov /\ params_valid p = true
+    /\ led s' = led s /\ sup s' = sup s /\ same_reg s s' /\ now s' = now s /\ par s' = p.
+Proof. exact exec_update_params_spec. Qed.
+Print Assumptions update_params_settlement.
+
 (** ** failure *)
 
 (** A message that is rejected or aborts leaves the whole state (ledger, supplies, registry,
@@ -222,8 +257,11 @@ Print Assumptions failed_msg_changes_nothing.
     [c02_step] (Check.v) is the decidable predicate the check evaluates on the IMPLEMENTATION's
     observed worlds: it recomputes sold / bought / deposited / withdrawn / minted / tax from the
     observed ledger and demands the full balance sheet, bounds, deadline, supply frame and
-    registry.  On the model's own worlds it answers 0, for messages signed by users (not a pool
-    escrow address, not a module account) and a creation fee not denominated in an LPT denom. *)
+    registry, and that the parameters change exactly when the authority sends a valid
+    MsgUpdateParams.  On the model's own worlds it answers 0, for messages signed by users or the
+    authority (not a pool escrow address, not the coinswap / fee-collector module account) and a
+    creation fee not denominated in an LPT denom.  The swap clause is skipped only when the recipient
+    is the escrow address of a pool the order itself trades on. *)
 Theorem check_predicate_holds_on_model_step :
   forall (s : state) (m : msg) (s' : state) (r : list Z) (o : obs),
     Inv s -> signer_ok m -> p_cdenom (par s) <= 1000 ->
@@ -243,10 +281,30 @@ Print Assumptions check_predicate_holds_on_failed_step.
     (the model never fails with code 0): every step of every history answers (0, 0) *)
 Theorem model_history_passes_both_predicates :
   forall (ms : list msg) (s : state),
-    Inv s -> Forall signer_ok ms -> p_cdenom (par s) <= 1000 ->
+    Inv s -> Forall msg_ok ms -> p_cdenom (par s) <= 1000 ->
     Forall (fun c => c = (0, 0)) (prop_codes s ms).
 Proof. exact model_history_passes. Qed.
 Print Assumptions model_history_passes_both_predicates.
+
+(** ** [model_passes_check]: the checker itself, on the driver's encoding of a model history
+
+    [encode_steps U D s0 ms] is what the driver would print for the history [ms] if the implementation
+    behaved as the model: per step the outcome code, the response, the signed differences of every
+    changed ledger entry of the observed universe [U] and of every changed supply among [D], the
+    registry and the parameters.  [check_case_C02] (the function evaluated by [vm_compute] on every
+    implementation trace: it rebuilds the observed worlds from the differences with [next_world],
+    compares them with the model, and evaluates the property's predicate on them) answers
+    (-1, -1, 0) — no divergence, no violation — for every genesis, every history of messages signed by
+    users or the authority, and every universe that covers what the history touches. *)
+Theorem model_passes_check :
+  forall (p : params) (start : Z) (gl : list ((Z * Z) * Z)) (gs : list (Z * Z))
+         (U : list (Z * Z)) (D : list Z) (ms : list msg),
+    let s0 := init_state (case_of p start gl gs []) in
+    NoDup U -> NoDup D -> covered U D s0 ms ->
+    Inv s0 -> Forall msg_ok ms -> p_cdenom p <= 1000 ->
+    check_case_C02 (case_of p start gl gs (encode_steps U D s0 ms)) = (-1, -1, 0).
+Proof. exact model_passes_check_C02. Qed.
+Print Assumptions model_passes_check.
 
 (** ** non-vacuity: two pools, a routed sell and a routed buy to a recipient other than the
     sender, bounds exact; the sender's and the recipient's standard coin do not move *)
@@ -256,6 +314,7 @@ Definition ex2_s0 : state :=
           [(0, 100005000); (1, 200000000); (2, 100000000)] [] 1 1000 ex2_par.
 Definition ex2_setup : list msg := [MAdd 0 1 1000000 1000000 1 2000; MAdd 0 2 1000000 1000000 1 2000].
 Definition ex2_sell : msg := MSwap false 1 3 1 1000 2 992 2000.
+Definition ex2_params : msg := MUpdateParams acct_gov (mkParams 10000000000000000 0 500000000000000000 std 7).
 
 Example c02_nonvacuous :
   codes_of ex2_s0 (ex2_setup ++ [ex2_sell]) = [0; 0; 0]
@@ -277,14 +336,29 @@ Proof. vm_compute. repeat split; reflexivity. Qed.
 (** the hypotheses of the history theorem hold of that history, and the predicates indeed
     evaluate to (0, 0) at each of its steps (computed, as the check computes them) *)
 Example c02_history_hypotheses :
-  Inv ex2_s0 /\ Forall signer_ok (ex2_setup ++ [ex2_sell]) /\ p_cdenom (par ex2_s0) <= 1000
-  /\ prop_codes ex2_s0 (ex2_setup ++ [ex2_sell]) = [(0, 0); (0, 0); (0, 0)].
+  Inv ex2_s0 /\ Forall msg_ok (ex2_setup ++ [ex2_params; ex2_sell]) /\ p_cdenom (par ex2_s0) <= 1000
+  /\ prop_codes ex2_s0 (ex2_setup ++ [ex2_params; ex2_sell]) = [(0, 0); (0, 0); (0, 0); (0, 0)].
 Proof.
   split; [apply Inv_genesis; [reflexivity|unfold P18; simpl; lia|unfold P18; simpl; lia]|].
-  split; [repeat constructor; unfold acct_feecol, acct_module; lia|].
+  split.
+  { repeat (apply Forall_cons;
+            [unfold msg_ok, signer_ok, is_pool_acct, acct_feecol, acct_module, acct_gov, std; simpl;
+             repeat split; try reflexivity; try lia; try discriminate|]).
+    apply Forall_nil. }
   split; [simpl; unfold std; lia|].
   vm_compute. reflexivity.
 Qed.
+
+(** a parameter change: refused for a stranger and for a fee out of range, accepted from the authority;
+    no coin moves *)
+Example c02_update_params :
+  let s := run ex2_s0 ex2_setup in
+  code_of s (MUpdateParams 1 (mkParams 1 0 1 std 1)) = 1
+  /\ code_of s (MUpdateParams acct_gov (mkParams P18 0 1 std 1)) = 1
+  /\ code_of s ex2_params = 0
+  /\ led (step s ex2_params) = led s /\ sup (step s ex2_params) = sup s
+  /\ p_fee (par (step s ex2_params)) = 10000000000000000.
+Proof. vm_compute. repeat split; reflexivity. Qed.
 
 (** the hypotheses of [history_balance_sheet] on that history: users 0, 1, 3, the fee collector and
     the three pool addresses up to the final sequence *)
@@ -303,3 +377,40 @@ Proof.
   - vm_compute. reflexivity.
   - vm_compute. reflexivity.
 Qed.
+
+(** the hypotheses of [model_passes_check] on that history (genesis given as the driver gives it,
+    universe = 4 accounts + fee collector + 3 pool addresses, 3 bank denoms + 3 LPT denoms), and the
+    checker's verdict computed on the encoding *)
+Definition ex3_gl : list ((Z * Z) * Z) :=
+  [((0, 0), 100000000); ((0, 1), 100000000); ((0, 2), 100000000); ((1, 0), 5000); ((1, 1), 100000000)].
+Definition ex3_gs : list (Z * Z) := [(0, 100005000); (1, 200000000); (2, 100000000)].
+Definition ex3_U : list (Z * Z) :=
+  flat_map (fun a => map (fun d => (a, d)) [0; 1; 2; 1001; 1002; 1003]) [0; 1; 3; acct_feecol; 1001; 1002; 1003].
+Definition ex3_D : list Z := [0; 1; 2; 1001; 1002; 1003].
+Definition ex3_ms : list msg := ex2_setup ++ [ex2_params; MSwap false 1 3 1 1000 2 900 2000; ex2_sell].
+
+Example c02_model_passes_check_hypotheses :
+  let s0 := init_state (case_of ex2_par 1000 ex3_gl ex3_gs []) in
+  NoDup ex3_U /\ NoDup ex3_D /\ covered ex3_U ex3_D s0 ex3_ms /\ Inv s0 /\ Forall msg_ok ex3_ms
+  /\ p_cdenom ex2_par <= 1000
+  /\ check_case_C02 (case_of ex2_par 1000 ex3_gl ex3_gs (encode_steps ex3_U ex3_D s0 ex3_ms)) = (-1, -1, 0)
+  /\ codes_of s0 ex3_ms = [0; 0; 0; 0; 1]
+  /\ length (o_led (snd (nth 3 (encode_steps ex3_U ex3_D s0 ex3_ms) (MBlock 0, mkObs 0 [] [] [] [] ex2_par)))) = 6%nat.
+Proof.
+  cbv zeta. split; [|split; [|split; [|split; [|split; [|split; [|split; [|split]]]]]]].
+  - vm_compute. repeat constructor; simpl; intuition discriminate.
+  - vm_compute. repeat constructor; simpl; intuition discriminate.
+  - apply covered_b_sound. vm_compute. reflexivity.
+  - apply Inv_genesis; [reflexivity|unfold P18; simpl; lia|unfold P18; simpl; lia].
+  - repeat (apply Forall_cons;
+            [unfold msg_ok, signer_ok, is_pool_acct, acct_feecol, acct_module, acct_gov, std; simpl;
+             repeat split; try reflexivity; try lia; try discriminate|]).
+    apply Forall_nil.
+  - simpl. unfold std. lia.
+  - vm_compute. reflexivity.
+  - vm_compute. reflexivity.
+  - vm_compute. reflexivity.
+Qed.
+
+Example c02_valid_denom_class : Params.Model.denom_valid 1 = true.
+Proof. reflexivity. Qed.
